@@ -129,6 +129,42 @@ theorem C06_bytes (b : Bytes) (m : Map) (n : Nat) (h : read b = .ok m n) :
         rw [this] at hne; exact absurd rfl hne
       · rfl
 
+/-! ### the same as a function: `write m = normalise (consumed bytes)` -/
+
+/-- overwrite the four bytes at `off` -/
+def setWord (bs : Bytes) (off : Nat) (v : Nat) : Bytes := bs.take off ++ encU32 v ++ bs.drop (off + 4)
+
+/-- what the writer normalises in a file that reads as `m`: the saved-game word (offset 4) becomes 0/1 and the word after
+    the tile-group count (8 bytes of count + word, then the groups, end the file) becomes `count − 1` -/
+def normalise (m : Map) (bs : Bytes) : Bytes :=
+  setWord (setWord bs 4 (if m.savedGame then 1 else 0)) (bs.length - (m.groups.flatMap encGroup).length - 4) (m.groups.length - 1)
+
+theorem setWord_mid (a w c : Bytes) (v : Nat) (hw : w.length = 4) : setWord (a ++ w ++ c) a.length v = a ++ encU32 v ++ c := by
+  unfold setWord
+  have e : a ++ w ++ c = a ++ (w ++ c) := List.append_assoc _ _ _
+  rw [e, List.take_left' rfl]
+  have hl : a.length + 4 = (a ++ w).length := by simp [hw]
+  rw [hl, ← e, List.drop_left' rfl]
+
+theorem C06_bytes_normalise (b : Bytes) (m : Map) (n : Nat) (h : read b = .ok m n) :
+    write m = .ok (normalise m (b.take n)) := by
+  obtain ⟨pre, fw, mid, uw, grp, e1, e2, l1, l2, l3, eg, _⟩ := C06_bytes b m n h
+  rw [e2]; congr 1
+  unfold normalise
+  rw [e1]
+  have s1 : setWord (pre ++ fw ++ mid ++ uw ++ grp) 4 (if m.savedGame then 1 else 0) =
+      pre ++ encU32 (if m.savedGame then 1 else 0) ++ mid ++ uw ++ grp := by
+    have := setWord_mid pre fw (mid ++ uw ++ grp) (if m.savedGame then 1 else 0) l2
+    rw [l1] at this
+    simpa [List.append_assoc] using this
+  rw [s1]
+  have hl : (pre ++ fw ++ mid ++ uw ++ grp).length - (m.groups.flatMap encGroup).length - 4 =
+      (pre ++ encU32 (if m.savedGame then 1 else 0) ++ mid).length := by
+    rw [← eg]; simp [List.length_append, l1, l2, l3, encU32_length]; omega
+  rw [hl]
+  have := setWord_mid (pre ++ encU32 (if m.savedGame then 1 else 0) ++ mid) uw grp (m.groups.length - 1) l3
+  exact this.symm
+
 /-! ## the public edits: each changes exactly what it names -/
 
 /-- `SetCellType` with an acceptable value changes the tile list only, and there only the addressed tile, and of that tile
